@@ -220,31 +220,41 @@ def rule_checked(fx, rep):
         ku = ('unchecked',)
         kc = ('is_on_curve', decode2.freeze(val))
         ks = ('in_subgroup', decode2.freeze(val))
-        keys = [ku, ks] if compressed else [ku, kc, ks]
+        kr = ('r_torsion', decode2.freeze(val))
+        known = [ku, kc, ks, kr]
         bad = []
         for k_ in tt.predicates(res):
-            if k_ not in keys:
-                bad.append('tests %r (expected: own unchecked decoder%s, in_subgroup, all on the decoded value)' % (k_, '' if compressed else ', is_on_curve'))
-        for env, cons in ([] if bad else tt.table(res, keys)):
-            # the unchecked decoder's label: variant 1 = Err
-            if env[ku]:
+            if k_ not in known:
+                bad.append('tests %r (expected: own unchecked decoder, is_on_curve, in_subgroup / its r-torsion half, all on the decoded value)' % (k_,))
+        # worlds: (unchecked decoder fails, decoded pair satisfies the curve equation, [r]P = O); in_subgroup = on curve && r-torsion.
+        # A compressed decoder's value is on the curve by construction (y is a square root of x^3 + b).
+        for u_, c_, r_ in ([] if bad else itertools.product([False, True], repeat=3)):
+            if compressed and not c_:
+                continue
+            env = {ku: u_, kc: c_, kr: r_, ks: c_ and r_}
+            if u_:
                 want = ('Err', 'propagated')
-            elif not compressed and not env[kc]:
+            elif not c_:
                 want = ('Err', 'NotOnCurve')
-            elif not env[ks]:
+            elif not r_:
                 want = ('Err', 'NotInSubgroup')
             else:
                 want = ('Ok', 'unchecked_result')
             got = []
-            for pth, ret, _ in cons:
+            for pth, ret, _ in res:
+                if any(key_ in env and env[key_] != t_ for key_, t_, _l in tt.path_literals(pth)):
+                    continue
                 for c, cond in decode2.outcomes(ret):
                     if cond is not None:
                         key_, neg_ = tt.canon(cond[0])
                         if key_ in env and (env[key_] != neg_) != bool(cond[1]):
                             continue
                     got.append((c[0], c[1]))
+            if u_:
+                # nothing is known about a value that was never decoded: any further test is vacuous
+                got = sorted(set(got))
             if got != [want]:
-                bad.append('when (unchecked fails%s, in_subgroup) = %r: %s, expected %s' % ('' if compressed else ', on curve', tuple(env[k_] for k_ in keys), got, want))
+                bad.append('when (unchecked fails, on curve, [r]P = O) = %r: %s, expected %s' % ((u_, c_, r_), got, want))
         rep.check(not bad, 'GUARD', '%s:checked:validation-order' % name,
                   'Ok (the value decoded by this type\'s unchecked decoder) only after%s in_subgroup; errors in the order form/flags/range -> curve -> subgroup' % ('' if compressed else ' is_on_curve and'),
                   '; '.join(sorted(set(bad))[:3]), where, construct=path)
@@ -327,10 +337,29 @@ def rule_predicates(fx, rep):
         I2 = exp.Interp(fx, 'add', inline=lambda q: q.endswith('PrimeField>::char'), extra_transfer=tr_mb)
         try:
             res2 = I2.run(p2, [('byref', Lin.atom('P'))])
-            ok = len(res2) == 1
-            ret = res2[0][1] if ok else None
-            ok = ok and isinstance(ret, tuple) and ret[0] == 'bool' and ret[1][0] == 'is_zero' and isinstance(ret[1][1], Lin) and ret[1][1].t == {'P': M.R_ORDER}
-            rep.check(ok, 'EXP', '%s:r-torsion:multiplier' % g, 'returns is_zero([r]P) with r the scalar-field modulus',
+            # general path: is_zero([r]P); a path taken only when P is the identity must say true ([k]O = O for every k)
+            kzP = ('is_zero', tt.lin_key(Lin.atom('P')))
+            ok, ret, n_general = True, None, 0
+            for pth2, ret, _o2 in res2:
+                if isinstance(ret, tuple) and ret and ret[0] == 'diverges':
+                    ok = False
+                    break
+                lits = tt.path_literals(pth2)
+                if [l for l in lits if l[0] != kzP]:
+                    ok = False
+                    break
+                sym = isinstance(ret, tuple) and ret[0] == 'bool' and ret[1][0] == 'is_zero' and isinstance(ret[1][1], Lin) and ret[1][1].atoms() <= {'P'}
+                if any(l[1] for l in lits):
+                    if not ((isinstance(ret, Int) and ret.v == 1) or sym):
+                        ok = False
+                        break
+                    continue
+                n_general += 1
+                if not (sym and ret[1][1].t == {'P': M.R_ORDER}):
+                    ok = False
+                    break
+            ok = ok and n_general >= 1
+            rep.check(ok, 'EXP', '%s:r-torsion:multiplier' % g, 'returns is_zero([r]P) with r the scalar-field modulus (identity-only paths may answer true directly)',
                       'returns %r, expected is_zero([r]P)' % (ret,), fx.fn(p2)['span'], construct=p2)
         except (exp.NotDerivable, exp.Budget) as e:
             rep.fail('EXP', '%s:r-torsion:multiplier' % g, 'not derivable: %s' % e, fx.fn(p2)['span'])
